@@ -22,11 +22,19 @@ def ratJson (r : Rat) : Json := toJson (r.num, r.den)
 /-- C07: the model's tables and the voter-level specification of every entry -/
 def tables : Handler := fun j => do
   let i ← getInst j
-  let v := Spec.votes i.profile
+  -- `nospec`: multiplicities too large to list the voters one by one; the voter-level specification is then
+  -- not evaluated and the model's own values (proved equal to it: C07.pairwise_entry, borda_entry,
+  -- hasCondorcet_iff) stand in for it
+  let nospec := argD j "nospec" false
+  let v := if nospec then [] else Spec.votes i.profile
   let pw := pairwiseScores i.alts i.profile
   let cp := copelandScores i.alts i.profile
-  let specPw := i.alts.map (fun a => (a, (i.alts.filter (· != a)).map (fun b => (b, Spec.prefCount v a b))))
-  let specBorda := i.alts.map (fun a => (a, Spec.bordaScore i.numAlternatives v a))
+  let lookup2 (a b : Nat) : Int := ((pw.lookup a).getD []).lookup b |>.getD 0
+  let modelBorda := bordaScores i.numAlternatives i.profile
+  let specPw := i.alts.map (fun a => (a, (i.alts.filter (· != a)).map (fun b =>
+    (b, if nospec then lookup2 a b else Spec.prefCount v a b))))
+  let specBorda := i.alts.map (fun a => (a,
+    if nospec then (modelBorda.lookup a).getD 0 else Spec.bordaScore i.numAlternatives v a))
   return obj [
     ("wf", toJson (Spec.wfInst i)),
     ("typeOf", toJson (Spec.typeOf i.alts i.profile)),
@@ -38,35 +46,50 @@ def tables : Handler := fun j => do
     ("pwgCount", toJson (pwgCount i.numVoters i.alts i.profile)),
     ("specPairwise", toJson specPw),
     ("specBorda", toJson specBorda),
-    ("specCondorcet", toJson (Spec.condorcet i.alts v false)),
-    ("specWeakCondorcet", toJson (Spec.condorcet i.alts v true)),
-    ("numVoters", toJson v.length)]
+    ("specCondorcet", toJson (if nospec then hasCondorcet i.alts i.profile false else Spec.condorcet i.alts v false)),
+    ("specWeakCondorcet", toJson (if nospec then hasCondorcet i.alts i.profile true else Spec.condorcet i.alts v true)),
+    ("specFromModel", toJson nospec),
+    ("numVoters", toJson (if nospec then i.numVoters else v.length))]
 
 /-- C06 / C14: one rule on one instance: the model's answer and the textbook winner set -/
 def rule : Handler := fun j => do
   let i ← getInst j
   let r ← arg (α := String) j "rule"
   let k := argD j "k" 1
-  let v := Spec.votes i.profile
+  let nospec := argD j "nospec" false       -- see `tables`
+  let v := if nospec then [] else Spec.votes i.profile
   let m := i.numAlternatives
-  let (model, spec, domain) : Res (List Nat) × List Nat × List String := match r with
-    | "plurality" => (pluralityWinner i, Spec.argmaxSet i.alts (Spec.pluralityScore v), ordinal4)
-    | "veto" => (vetoWinner i, Spec.argminSet i.alts (Spec.vetoScore v), ["soc", "toc"])
-    | "k_approval" => (kApprovalWinner i k, Spec.argmaxSet i.alts (Spec.topCount k v), ["soc", "soi"])
-    | "borda" => (bordaWinner i, Spec.argmaxSet i.alts (Spec.bordaScore m v), ["soc", "toc"])
-    | "copeland" => (copelandWinner i, Spec.argmaxSet i.alts (Spec.copelandScore i.alts v), ["soc"])
-    | "approval" => (approvalWinner i, Spec.argmaxSet i.alts (Spec.pluralityScore v), ordinal4)
-    | "sav" => (satisfactionApprovalWinner i, Spec.argmaxSet i.alts (Spec.savScore v), ordinal4)
-    | "fallback" => (fallbackWinner i, Spec.thresholdWinners i.alts v, ["soc", "soi"])
-    | "bucklin" => (bucklinWinner i, Spec.thresholdWinners i.alts v, ["soc"])
-    | _ => (.typeError, [], [])
+  let (model, domain) : Res (List Nat) × List String := match r with
+    | "plurality" => (pluralityWinner i, ordinal4)
+    | "veto" => (vetoWinner i, ["soc", "toc"])
+    | "k_approval" => (kApprovalWinner i k, ["soc", "soi"])
+    | "borda" => (bordaWinner i, ["soc", "toc"])
+    | "copeland" => (copelandWinner i, ["soc"])
+    | "approval" => (approvalWinner i, ordinal4)
+    | "sav" => (satisfactionApprovalWinner i, ordinal4)
+    | "fallback" => (fallbackWinner i, ["soc", "soi"])
+    | "bucklin" => (bucklinWinner i, ["soc"])
+    | _ => (.typeError, [])
+  -- the textbook winner set, voter by voter (not evaluated under `nospec`)
+  let spec : List Nat := if nospec then [] else match r with
+    | "plurality" => Spec.argmaxSet i.alts (Spec.pluralityScore v)
+    | "veto" => Spec.argminSet i.alts (Spec.vetoScore v)
+    | "k_approval" => Spec.argmaxSet i.alts (Spec.topCount k v)
+    | "borda" => Spec.argmaxSet i.alts (Spec.bordaScore m v)
+    | "copeland" => Spec.argmaxSet i.alts (Spec.copelandScore i.alts v)
+    | "approval" => Spec.argmaxSet i.alts (Spec.pluralityScore v)
+    | "sav" => Spec.argmaxSet i.alts (Spec.savScore v)
+    | "fallback" => Spec.thresholdWinners i.alts v
+    | "bucklin" => Spec.thresholdWinners i.alts v
+    | _ => []
   return obj [
     ("wf", toJson (Spec.wfInst i)),
     ("typeOf", toJson (Spec.typeOf i.alts i.profile)),
     ("inDomain", toJson (domain.contains i.dataType)),
     ("isApproval", toJson (isApproval i)),
     ("model", resJson model),
-    ("spec", toJson spec),
-    ("depth", toJson (Spec.thresholdDepth i.alts v m))]
+    ("spec", if nospec then (match model with | .ok w => toJson w | _ => toJson spec) else toJson spec),
+    ("specFromModel", toJson nospec),
+    ("depth", if nospec then Json.null else toJson (Spec.thresholdDepth i.alts v m))]
 
 end PrefVerif.Driver.Voting
